@@ -58,3 +58,26 @@ prop("C12", "c12",
      "cases = generated plans with 1..6 thread-local systems mixed with ordinary systems, barriers and batches (also builders with thread-local systems passed to add_batch); executed every 4th via dispatch / seq+thread_local / async wait under jitter, hold of an ordinary system or forced overlap; "
      "oracle: thread id == caller's, start after every ordinary system's end, registration order, one at a time; layout oracle: thread-local list == registration order. "
      "distinct non-trivial = (plan hash, driver) with >=1 thread-local window observed beside >=1 ordinary system.")
+
+prop("C04", "c04",
+     "cases = generated plans (1..600 systems, funnels that fill groups, dozens to hundreds of stages, batches nested with k=0..3 inner dispatches incl. MultiDispatcher, thread-local systems) x pool 1..16 x a random sequence (length 1..12) of dispatch / dispatch_par / dispatch_seq / dispatch_seq+dispatch_thread_local / dispatch_thread_local calls; "
+     "after every call the per-system run counters are compared with a reference count model (batch members multiply by the controller's k along the nesting); a third of the calls on small plans are monitored and the event log is checked (no re-entry, epochs do not overtake, nothing outside the call); the layout must hold every registered system exactly once; SendDispatcher after try_into_sendable likewise. "
+     "distinct non-trivial = (layout hash, call-sequence hash) with >=2 stages or a batch, and a sequence of >=2 calls.")
+
+prop("C19", "c19",
+     "cases = generated plans from every profile; recovered layouts (nested lists of registration identities) compared between the original and: an in-process rebuild, a consistent renaming of every system (unnamed stay unnamed), an injective relabelling of all resources not pinned by a static Rust type (across types and dynamic ids), a permutation of every dynamic system's read and write lists, and all of these at once. "
+     "distinct non-trivial = (plan hash, transformation) where the transformation really changed >=1 name / id / list order.")
+
+prop("C20", "c20",
+     "cases = generated builders (names with spaces, dashes, slashes, unicode; 10-60% unnamed systems; batches; empty builders); `{:?}` and `{:#?}` of every builder level (inner builders just before add_batch, the top builder before build) under catch_unwind, parsed with a strict seq!/par!/seq! grammar and compared positionally with the executed layout (shape hook + identification run): stage/group/size structure, total count, and the sanitised name at every position of a named system (any non-empty token is accepted for unnamed ones). "
+     "distinct non-trivial = (plan, layout) with a stage of >=2 groups and >=1 unnamed or sanitised name.")
+
+prop("C18", "c18",
+     "cases = registration sequences of up to ~600 calls (funnels that fill groups from both sides, running-time hints, hundreds of empty names, names needing sanitising, batches, thread-local, barriers); half of them carry exactly one ill-formed call at a random position: a reused non-empty name, or a dependency on the empty name / a name registered later / a name that only exists inside a batch / its own name / a sanitised spelling / a fresh name. "
+     "Every single builder call runs under catch_unwind: panic <=> ill-formed, at that very call, message contains the quoted name; a well-formed sequence must also build(). "
+     "distinct non-trivial = sequence hash with >=20 calls or an ill-formed call that was reached.")
+
+prop("C13", "c13",
+     "cases = generated plans with batches nested 0..3 deep (HCtl and MultiDispatcher controllers with library SystemData as declared data), static library-typed systems, dynamic systems and thread-local systems, set up 1..3 times in worlds where a random subset of the 32 resources pre-exists with sentinel values, with inserts/removes between rounds, then disposed; every 8th case uses AsyncDispatcher::setup. "
+     "Oracles: per-system setup counter == number of setup calls, dispose counter == 1 (any depth, thread-local included); world before/after against a reference (pre-existing values untouched, default-providing accessors create the default, Option/Expect create nothing). "
+     "distinct non-trivial = (plan hash, initial-world density) with a batch member or thread-local system and >=1 pre-existing resource.")
